@@ -20,6 +20,66 @@ CHECKS = {
             "exploration",
             "Exhaustive over every accepted option combination for tip heights up to 4 (quick) / 6 (thorough) for all five callbacks, random beyond; each run is compared with the model restricted to the expected heights, so an off-by-one at either bound, a clamp or a file-name error is caught on the smallest chains.",
             "DESIGN.md section 7, C02"),
+    "C03": ("metamorphic PBT: one logical chain written in generated physical layouts (files, order, gaps, decoys, holes > 4 GiB, file numbers to 2^64-1, VarInt widths, foreign keys); every layout's csvdump must equal the canonical layout's and the reference model",
+            "exploration",
+            "Random exploration of the layout space with construction (not filtering) of every dimension the statement names; the oracle is both model-free (layout A == layout B) and model-based. Layouts only reachable through unnamed magic values are not covered.",
+            "DESIGN.md section 7, C03"),
+    "C04": ("differential PBT over generated block indexes (active chain + header-only / stale / failed / reorged-out records, key order steered by nonce search) with a two-oracle scheme: correct expectation vs executable prediction of the open finding D7",
+            "exploration",
+            "Every generated index is decided exactly: output == active chain (pass), == the D7 prediction (KNOWN-FINDING, listed in known_findings.json), anything else is a violation - so a different break of the property is still reported and a future repair passes silently.",
+            "DESIGN.md sections 6 and 7, C04"),
+    "C05": ("differential PBT of scripts from a grammar (templates, one-byte mutations, truncations, all leading opcodes, witness versions x lengths, m-of-n, tokens, raw bytes) against a three-valued reference classifier plus an independent address round-trip decoder; E1 through csvdump/simplestats, E2 per script, E3 libFuzzer",
+            "exploration",
+            "Hundreds of thousands (quick) to tens of millions (thorough) of scripts per run, each checked for type set and exact address, and every reported address decoded by the harness's own Base58Check/Bech32(m) decoder back to the script. Regions the statement leaves open are three-valued and never alarmed.",
+            "DESIGN.md section 7, C05"),
+    "C06": ("differential PBT of scripts with every push form in every template slot against a strict reference tokeniser/template matcher with the published version bytes; E1 through csvdump/simplestats/opreturn on the six fork coins, E2 per script, E3 libFuzzer",
+            "exploration",
+            "Strict (two-valued) oracle, since the statement is explicit; exploration of the script grammar including zero-length/truncated pushes and NOP insertion, on all six coins.",
+            "DESIGN.md section 7, C06"),
+    "C07": ("model-based PBT over spend histories: bounded-exhaustive enumeration of small histories plus random long ones (fan-in/out, same-block spends, duplicate txids, indices > 255, unknown outpoints), row-set equality with a reference UTXO map",
+            "exploration",
+            "All histories of <=2 non-coinbase transactions over <=2 blocks are enumerated (exhaustive for that sub-space), long random histories beyond; the oracle is exact set equality incl. header and duplicates.",
+            "DESIGN.md section 7, C07"),
+    "C08": ("model-based PBT over spend histories with recurring addresses: reference aggregation (u128) plus the model-free relation balances == aggregate(unspentcsvdump) on the same directory and range",
+            "exploration",
+            "Two independent oracles per case (reference model and cross-callback relation), random histories with few keys so that multi-output and emptied addresses are common.",
+            "DESIGN.md section 7, C08"),
+    "C09": ("PBT with fault operators: consistent chains over every merkle tree shape class must pass --verify unchanged; single-bit flips in tx bytes / merkle field / prev field, foreign blocks and wrong genesis blocks must fail at exactly that height when processed; thorough tier enumerates every bit of one block",
+            "exploration",
+            "Both directions of the iff are generated: completeness on consistent chains (8 coins, any --start) and soundness on faulted ones, incl. faults outside the processed range that must not fail.",
+            "DESIGN.md section 7, C09"),
+    "C10": ("enumerated fault injection on the real binary: input faults per height (remove/empty/truncate/offset past EOF), RLIMIT_FSIZE sweeps, strace-injected ENOSPC at the k-th dump-file write, SIGKILL at every dump-file syscall ordinal; plus random fault plans",
+            "fault_enumeration",
+            "For a fixed generated chain every height x input fault kind, 27 size limits, every early write ordinal and every dump-file syscall ordinal (kill point) is enumerated for the three file-producing callbacks, incl. a chain whose files exceed the 4 MB buffers; random plans extend this to other chains and ranges. Crash points are syscall-granular; fsync/power-loss ordering is outside the statement.",
+            "DESIGN.md section 7, C10"),
+    "C11": ("metamorphic PBT: plaintext directory vs its XOR-ed copy (generated keys of length 1..64, layouts forcing backward/forward seeks across the 32 KiB buffer and 4 GiB) for csvdump plus one generated callback; E2 stateful model test of XorReader over seek/read op lists; E3 libFuzzer",
+            "exploration",
+            "Whole-program equality between obfuscated and plain directories plus an in-process state-machine test of the reader against a plain array model.",
+            "DESIGN.md section 7, C11"),
+    "C12": ("differential + metamorphic PBT: Namecoin/Dogecoin chains with generated AuxPoW sections and versions around the threshold vs the reference model (with --verify), and vs the same blocks stored without sections under a non-AuxPoW coin; six other coins as negative control",
+            "exploration",
+            "Random exploration of section shapes (legacy/segwit parent coinbase, branch lengths 0..40, masks) and of versions below/at/above the threshold, mixed in one chain.",
+            "DESIGN.md section 7, C12"),
+    "C13": ("run-vs-run equality PBT: thread counts 1/2/3/8/16/64 and 64 threads pinned to one CPU under load; sequences of runs sharing a pre-seeded dump folder and one data directory with checksums of blk/xor files and a key/value dump of the index before and after",
+            "exploration",
+            "Schedules are sampled (thread counts, pinning, contention), not enumerated: reliable for order-destroying or state-carrying changes, weak for a break that needs one rare interleaving (DESIGN section 8).",
+            "DESIGN.md sections 7 and 8, C13"),
+    "C14": ("totality PBT/fuzzing: hostile bytes placed in scriptPubKey / scriptSig / witness items of valid chains on 8 coins, all five callbacks must exit 0 and leave every non-derived row equal to the model (masked oracles); E2 catch_unwind over millions of scripts; E3 libFuzzer",
+            "exploration",
+            "Exploration of the hostile classes named by the statement (truncated pushes, huge PUSHDATA4, all leading opcodes, >255 pushes, 10-100 KB) with exit status and non-interference oracles in debug (overflow checks on) and, thorough tier, release builds.",
+            "DESIGN.md section 7, C14"),
+    "C15": ("differential PBT: the simplestats report is parsed and every figure recomputed independently (exact integers, rational means with a half-ulp tolerance of the printed decimals), incl. non-monotonic timestamps, gap sums beyond 2^32, ties, halving boundaries; E2 get_mean vs u128 mean",
+            "exploration",
+            "Every figure of the report is covered by an exact or toleranced comparison on each generated chain; the sum-of-sizes > 2^32 class is reached in-process through get_mean (E2) rather than with multi-GiB inputs.",
+            "DESIGN.md section 7, C15"),
+    "C16": ("differential PBT: OP_RETURN single-push scripts in every push encoding x payload class (ASCII, multi-byte, invalid UTF-8, empty, newline) mixed with other scripts, exact stdout text vs model on 8 coins with ranges; E2 per-script payload extraction",
+            "exploration",
+            "Byte-exact comparison of the printed lines in chain order on generated chains; shapes the statement leaves open are not generated here.",
+            "DESIGN.md section 7, C16"),
+    "C17": ("resource-bound PBT: RLIMIT_NOFILE calibrated by binary search on the single-file layout, multi-file layouts (disjoint/overlapping/interleaved spans, up to 300 files) must succeed under N0+(w-1); strace openat/close trace bounds the simultaneously open blk files by w",
+            "exploration",
+            "Two oracles per generated layout: success under the calibrated descriptor limit (model-derived slack w) and a trace invariant that closes the gap left by descriptors the start-up phase frees.",
+            "DESIGN.md section 7, C17"),
 }
 
 NOT_YET = "check under construction (see DESIGN.md section 7); will be claimed once built and validated"
